@@ -325,6 +325,45 @@ def {name}(a0: fp.Real):
     return out
 
 
+RANGE_FIXED = [(0, 100, 3), (5, 200, 7), (-1, -100, -4), (0, 100, 1), (10, -90, -6), (3, 1000, 37), (-50, 51, 5), (100, 0, -3),
+               (-7, 120, 9), (0, 1100000, 60000), (0, 17, 1), (2, 36, 2), (-3, -60, -3), (0, 16, 1), (1, -1000, -59)]
+
+
+def range_programs(rng, count):
+    """concrete ranges of more than 16 elements (the bounded-integer element format, past the set threshold): strided,
+    descending, span not divisible by the stride -- walked by a for loop and by a comprehension, in the 1-, 2- and
+    3-argument spellings; plus small / divisible controls"""
+    triples = list(RANGE_FIXED)
+    while len(triples) < count:
+        step = rng.choice([-1, 1]) * rng.randint(2, 40)
+        n = rng.randint(17, 45)
+        start = rng.randint(-200, 200)
+        stop = start + step * (n - 1) + (1 if step > 0 else -1) * rng.randint(1, abs(step))
+        triples.append((start, stop, step))
+    out = []
+    for k, (a, b, c) in enumerate(triples[:count]):
+        if c == 1 and a == 0 and k % 2 == 0:
+            rg = f'range({b})'
+        elif c == 1:
+            rg = f'range({a}, {b})'
+        else:
+            rg = f'range({a}, {b}, {c})'
+        name = f'rg{k}'
+        out.append((name, f'''
+@fp.fpy
+def {name}():
+    s = 0
+    last = 0
+    for i in {rg}:
+        s = s + i
+        last = i
+    xs = [j for j in {rg}]
+    ys = [j * 2 for j in {rg}]
+    return s, last, xs, ys
+'''))
+    return out
+
+
 def run_programs(ck, rng, thorough):
     import fpy2 as fp
     from fpy2.analysis.format_infer import FormatInfer, FunctionFormat, SetFormat
@@ -345,6 +384,9 @@ def run_programs(ck, rng, thorough):
         nargs = rng.choice([1, 2, 2, 3])
         srcs.append(gen_program(rng, f'g{i}', nargs))
         names.append((f'g{i}', nargs))
+    for rname, rsrc in range_programs(rng, 40 if thorough else 24):
+        srcs.append(rsrc)
+        names.append((rname, 0))
     modname = f'c14_generated_{ck.seed}'
     path = ck.dir / f'{modname}.py'
     path.write_text('\n'.join(srcs))
@@ -449,6 +491,8 @@ def run_programs(ck, rng, thorough):
                 octx, actx = fp.FP64, [fp.SINT8] * nargs
             if nm in guard_lit:
                 octx, actx = fp.FP64, [guard_ctxs[(int(nm[2:]) + cfg) % len(guard_ctxs)]]
+            if nm.startswith('rg'):
+                octx = [fp.FP64, fp.REAL, fp.SINT32, fp.FP32][cfg % 4]
             afmts = tuple(c.format() for c in actx)
             try:
                 info = FormatInfer.analyze(f.ast, fn_fmt=FunctionFormat(ctx=octx, arg_fmts=afmts, ret_fmt=None))
@@ -461,7 +505,7 @@ def run_programs(ck, rng, thorough):
                 if isinstance(d, AssignDef) and isinstance(d.site, Assign):
                     def_fmt[id(d.site.expr)] = (d, b)
             gvals = guard_values(actx[0], guard_lit[nm]) if nm in guard_lit else None
-            for _ in range(len(gvals) if gvals is not None else per):
+            for _ in range(len(gvals) if gvals is not None else (1 if nargs == 0 else per)):
                 args = [gvals[_]] if gvals is not None else [sample_arg(c) for c in actx]
                 if nm.startswith('k_') and cfg == 0 and _ == 0:
                     args = {'k_neg': [0], 'k_abs': [-128], 'k_mul': [-2, 0]}.get(nm, args)
